@@ -160,6 +160,20 @@ sections stays trusted. -/
 theorem C12_source_single_critical_section (s : St) (op : Op) :
     (runOp s op).locks ≤ 1 ∧ (runOp s op).unlockedTouch = false := lock_discipline s op
 
+open SwimVerif.ConduitProg in
+/-- **The co-operative budget of the model is the translated `coop/mod.rs`**: `consume_budget` is `budgetStep` (new
+cell, `Ready`/`Pending`, and a self-wake exactly on `Pending` — so a poll deferred by the budget can never be a lost
+wake-up), `track_progress` is `trackBudget` on a pending poll and the identity otherwise, for every cell value. -/
+theorem C12_source_coop_is_model (c : Option Nat) (p : Bool) :
+    ((execB Generated.CoopSrc.consume_budget { cell := c }).cell = (budgetStep c).1 ∧
+     (execB Generated.CoopSrc.consume_budget { cell := c }).ret = some (if (budgetStep c).2 then .ready else .pending) ∧
+     (execB Generated.CoopSrc.consume_budget { cell := c }).wokeSelf = !(budgetStep c).2) ∧
+    ((execB Generated.CoopSrc.track_progress { cell := c, pollPending := p }).cell = (if p then trackBudget c else c) ∧
+     (execB Generated.CoopSrc.track_progress { cell := c, pollPending := p }).ret = some .same) :=
+  ⟨consume_budget_eq c, track_progress_eq c p⟩
+
+example : (SwimVerif.ConduitProg.execB Generated.CoopSrc.consume_budget { cell := some 1 }).wokeSelf = true := by decide
+
 /-! Non-vacuity: the translated `poll_read` on a full two-byte channel with the writer parked returns one byte and
 fires the writer's waker, under one lock acquisition. -/
 example : (SwimVerif.ConduitProg.runRead (reach 2 [.write [1, 2], .write [3]]) 1).wokeW = true ∧
